@@ -52,7 +52,7 @@ def waitCheck (e : E) : Option Err × E :=
   | (some (.msg c), e') =>
     if Gen.RpcWait.defersMessageError then
       if Gen.RpcWait.deferralRequiresOpen && e'.chState ≠ open_ then (some (.msg c), e')
-      else (none, { e' with chErrs := .msg c :: e'.chErrs })
+      else (none, if Gen.RpcWait.keepsDeferredError then { e' with chErrs := .msg c :: e'.chErrs } else e')
     else (some (.msg c), e')
   | r => r
 
